@@ -44,7 +44,8 @@ def filter_is_additive_in_the_signal():
 def filter_is_homogeneous_in_the_signal():
     t = symarr("times")
     a = absarr("a", len(t))
-    c = real("c")
+    # any real factor; the native sampling spans many orders of magnitude (signals of 1e-12 are as good as signals of 1)
+    c = 10 ** real("log10_c", -13, 3) if NATIVE else real("c")
     sa, _ = _signal(a, t)
     sca, _ = _signal(c * a, t)
     for s in (sa, sca):
